@@ -68,7 +68,35 @@ def reject_is_failure(rj):
     return "execution of the real code leaves the specification automaton %s: %s" % (rj.get("model"), r[:300])
 
 
+# repro programs of repaired defects of this family: compiled against the current tree, must exit 0
+CORPUS = {
+    "C01": [("f6_stacked_basic_wait.c", [[]])],
+    "C06": [("f3_blocked_count_migration.c", [[]])],
+    "C11": [("f13_suspend_to_state.c", [[]])],
+    "C12": [("f13_suspend_to_state.c", [[]])],
+}
+
+
+def run_corpus(res, prop):
+    import os, subprocess
+    n = 0
+    for src, argvs in CORPUS.get(prop, []):
+        exe = C.cc_harness("corpus_" + src.rsplit(".", 1)[0], [os.path.join(C.VERIF, "corpus", "findings", src)], "plain")
+        for argv in argvs:
+            n += 1
+            try:
+                p = subprocess.run([exe] + argv, stdout=subprocess.PIPE, stderr=subprocess.STDOUT, timeout=60)
+                rc, out = p.returncode, p.stdout.decode("utf-8", "replace")
+            except subprocess.TimeoutExpired:
+                rc, out = -999, "timeout"
+            if rc != 0:
+                res.violation("corpus program %s %s fails (exit %d; it is the repro of a repaired defect and must exit 0)" % (src, " ".join(argv), rc),
+                              {"corpus": src, "argv": argv, "exit": rc, "output": out[-1500:]})
+    res.add_cov(corpus_programs=n)
+
+
 def run_sched(res, tier, broken, prop, extra_t1=(), validate_fn=None):
+    run_corpus(res, prop)
     funcs = COMMON_T1 + list(extra_t1)
     n, tb = t1.check(funcs)
     res.add_cov(t1_functions=n, t1_broken=len(tb))
